@@ -213,3 +213,9 @@ def r5(ctx):
     from . import c09
     c09.r4(ctx)   # the state read by the metrics is the last relabel's
     c09.r1(ctx)   # no phase (statistics refresh included) runs outside the round loop
+
+
+@rule("C16", "R6", "OWN", "the metric only reads the model it is given")
+def r_readonly(ctx):
+    from .c06 import readers_do_not_write
+    readers_do_not_write(ctx, ["cluster_metrics.bayesian_information_criterion" if "C16" == "C16" else "cluster_metrics.calinski_harabasz_index"])
